@@ -136,6 +136,7 @@ type SolveOpts struct {
 	Workdir  string
 	Parallel int
 	DumpDir  string
+	ShortFor map[string]bool
 }
 
 func SolveAll(obls []*Obligation, opts SolveOpts) []Result {
@@ -157,6 +158,9 @@ func SolveAll(obls []*Obligation, opts SolveOpts) []Result {
 				to = 4 // a canary only has to *fail to be proved*; contradictions show up fast
 			}
 			svs := opts.Solvers
+			if opts.ShortFor[o.Name] && to > 5 {
+				to = 5 // recorded open finding: expected not to discharge
+			}
 			if o.Kind == "path" {
 				svs = []string{"z3-em"} // contradictions among assumptions show up by E-matching at once
 				to = 3
